@@ -487,6 +487,30 @@ def sample_pairs(per_model, seed, fraction, cap):
     return items, possible, full
 
 
+def designed_pairs(per_model, cap):
+    """Pairs that are built on purpose rather than drawn: the id of a DRG element and an href inside the same
+    element both emptied / both garbled, which makes the element reference itself although neither fault does
+    so alone. At most `cap` per model and kind."""
+    items = []
+    for mi, n in enumerate(per_model):
+        _, faults, _ = model_info(mi)
+        for kind in ("attr-empty", "attr-garble"):
+            ids = [(fi, f) for fi, f in enumerate(faults) if f.kind == kind and f.ekind.startswith("definitions/") and f.ekind.endswith("@id")]
+            hrefs = [(fi, f) for fi, f in enumerate(faults) if f.kind == kind and f.ekind.endswith("@href")]
+            got = 0
+            for k, (fi, f) in enumerate(ids):
+                # the first href after the id in document order lies inside the same DRG element (if it has one)
+                nxt = [(fj, g) for fj, g in hrefs if g.lo > f.hi]
+                if not nxt or got >= cap:
+                    continue
+                fj, g = nxt[0]
+                if k + 1 < len(ids) and g.lo > ids[k + 1][1].lo:
+                    continue  # that href belongs to a later element
+                items.append(("p", mi, fi, fj))
+                got += 1
+    return items
+
+
 def sample_corruptions(seed, per_model_random, trunc_points):
     items = []
     for mi, (name, text) in enumerate(MODELS):
@@ -549,13 +573,15 @@ def run(rep, tier, seed):
         corrupt = sample_corruptions(seed, 8, 6)
     else:
         dbg_singles, q = all_singles, None
-        picked_rel, q_rel = stride_sample(table, n_single // 10, seed, "rel")
+        picked_rel, q_rel = stride_sample(table, n_single // 5, seed, "rel")
         rel_singles = [("s", mi, fi) for mi, fi in picked_rel]
-        picked_asan, _ = stride_sample(table, n_single // 20, seed, "asan")
+        picked_asan, _ = stride_sample(table, n_single // 10, seed, "asan")
         asan_singles = [("s", mi, fi) for mi, fi in picked_asan] if "asan" in usable else []
-        pairs, pairs_possible, pairs_full = sample_pairs(per_model, seed, 0.01, 450)
+        pairs, pairs_possible, pairs_full = sample_pairs(per_model, seed, 0.01, 1200)
         corrupt = sample_corruptions(seed, 160, 200)
 
+    designed = designed_pairs(per_model, 3 if tier == "quick" else 40)
+    pairs = sorted(set(pairs) | set(designed))
     ctx = multiprocessing.get_context("fork")
     passes = []
     with ctx.Pool(runner.NCPU) as pool:
@@ -703,6 +729,7 @@ def run(rep, tier, seed):
     rep.extra["exhaustive"] = bool(tier == "thorough")
     rep.extra["stride_quota_per_class"] = {"dbg": q, "rel": q_rel}
     rep.extra["pairs_executed"] = len(pairs)
+    rep.extra["pairs_designed_id_and_href"] = len(designed)
     rep.extra["pairs_possible"] = pairs_possible
     rep.extra["pairs_fraction"] = round(len(pairs) / float(max(1, pairs_possible)), 6)
     rep.extra["models_with_full_1pct_of_pairs"] = pairs_full
